@@ -255,6 +255,28 @@ pub fn c01_case(case: &WorldCase) -> CaseResult {
         r::Status::Halt => "halt",
     });
     labels_of(&ev, &mut o);
+    if n.status == r::Status::Halt {
+        let h = &n.halt_reason;
+        o.labels.push(if h.starts_with("OutOfGas") {
+            "halt:OutOfGas"
+        } else if h.starts_with("OpcodeNotFound") {
+            "halt:OpcodeNotFound"
+        } else if h.starts_with("InvalidFEOpcode") {
+            "halt:InvalidFE"
+        } else if h.starts_with("InvalidJump") {
+            "halt:InvalidJump"
+        } else if h.starts_with("NotActivated") {
+            "halt:NotActivated"
+        } else if h.starts_with("StackUnderflow") {
+            "halt:StackUnderflow"
+        } else if h.starts_with("StackOverflow") {
+            "halt:StackOverflow"
+        } else if h.starts_with("OutOfOffset") {
+            "halt:OutOfOffset"
+        } else {
+            "halt:other"
+        });
+    }
     if n.gas_refunded > 0 {
         o.labels.push("refund>0");
     }
